@@ -2,6 +2,7 @@ package seq
 
 import (
 	"fmt"
+	"math"
 	"strings"
 	"testing"
 
@@ -81,7 +82,7 @@ var setOpKinds = []string{"AddValue", "AddValue", "AddValue", "AddValues", "Remo
 
 func genSetCase(s core.Source) setCase {
 	var c setCase
-	c.Elem = core.Pick(s, []string{"int", "int", "string", "ints", "any", "set"}, "elem")
+	c.Elem = core.Pick(s, []string{"int", "int", "string", "float", "ints", "any", "set"}, "elem")
 	c.Collator = core.Pick(s, []string{"default", "default", "reversed", "coarse"}, "collator")
 	if (c.Elem == "any" || c.Elem == "set") && c.Collator == "coarse" {
 		c.Collator = "reversed"
@@ -172,6 +173,7 @@ func intsOfCode(code int) []int {
 	return out
 }
 
+var floatSetPool = []float64{math.Inf(-1), -2.5, math.Copysign(0, -1), 0, 5e-324, 1.5, 3, 1e300, math.Inf(1), -1e300, 2, 2.5}
 var anyPool []any
 var anyPoolClass []int
 var setPool []col.SetLike[int]
@@ -204,16 +206,50 @@ func init() {
 }
 
 var (
-	seInt = setElem[int]{"int", 64, func(c int) int { return c*3 - 40 }, func(c int) int { return c },
+	seInt = setElem[int]{"int", 64, intOfCode, func(c int) int { return c },
 		func(a, b int) bool { return a == b }, func(a, b int) bool { return a < b }, func(v int) int { return floorDiv(v, 7) }}
 	seString = setElem[string]{"string", 64, strOfCode, func(c int) int { return c },
 		func(a, b string) bool { return a == b }, func(a, b string) bool { return a < b }, func(v string) int { return len(v) }}
+	// floats: -0.0 and +0.0 (codes 2 and 3) are one member under every collator but two different values
+	seFloat = setElem[float64]{"float", len(floatSetPool), func(c int) float64 { return floatSetPool[c%len(floatSetPool)] },
+		func(c int) int {
+			if c%len(floatSetPool) == 3 {
+				return 2
+			}
+			return c % len(floatSetPool)
+		},
+		func(a, b float64) bool { return math.Float64bits(a) == math.Float64bits(b) }, func(a, b float64) bool { return a < b },
+		func(v float64) int {
+			switch {
+			case v < -1:
+				return -1
+			case v > 1:
+				return 1
+			}
+			return 0
+		}}
 	seInts = setElem[[]int]{"ints", 64, intsOfCode, func(c int) int { return c }, sameInts, lessInts, func(v []int) int { return len(v) }}
 	seAny  = setElem[any]{"any", len(anyPool), func(c int) any { return anyPool[c%len(anyPool)] }, func(c int) int { return anyPoolClass[c%len(anyPool)] },
 		func(a, b any) bool { return a == b }, nil, nil}
 	seSet = setElem[col.SetLike[int]]{"set", 16, func(c int) col.SetLike[int] { return setPool[c%16] }, func(c int) int { return c % 8 },
 		func(a, b col.SetLike[int]) bool { return a == b }, nil, nil}
 )
+
+// codes 0, 1, 6 and 7 (all inside the small domain) are the ends of the int64 range, where a comparison
+// by subtraction overflows
+func intOfCode(c int) int {
+	switch c {
+	case 0:
+		return math.MinInt64
+	case 1:
+		return math.MinInt64 + 1
+	case 6:
+		return math.MaxInt64 - 1
+	case 7:
+		return math.MaxInt64
+	}
+	return c*3 - 40
+}
 
 func floorDiv(a, b int) int {
 	q := a / b
@@ -229,6 +265,8 @@ func execSetCase(c setCase, _ core.Source) core.Result {
 		return execSet(c, seInt)
 	case "string":
 		return execSet(c, seString)
+	case "float":
+		return execSet(c, seFloat)
 	case "ints":
 		return execSet(c, seInts)
 	case "any":
